@@ -330,10 +330,42 @@ def shape (k : Kind) : Construct → Option (List Item)
             mssqlDropTailShape "fkc." g col)
     | _ => none
 
-/-- C14 for one requested construct and the text Alembic wrote for it -/
+/-- the names a construct mentions as identifiers, in the object form the operation was given -/
+def identNames : Construct → List Name
+  | .renameTable g n => [g.t, n] ++ g.schema.toList
+  | .addColumn g c _ => [g.t, c] ++ g.schema.toList
+  | .dropColumn g c => [g.t, c] ++ g.schema.toList
+  | .columnNullable g c _ _ => [g.t, c] ++ g.schema.toList
+  | .columnType g c _ _ => [g.t, c] ++ g.schema.toList
+  | .columnName g c n => [g.t, c, n] ++ g.schema.toList
+  | .columnDefault g c _ => [g.t, c] ++ g.schema.toList
+  | .columnComment g c _ => [g.t, c] ++ g.schema.toList
+  | .identity g c _ => [g.t, c] ++ g.schema.toList
+  | .mysqlAlterDefault g c _ => [g.t, c] ++ g.schema.toList
+  | .mysqlModify g c _ => [g.t, c] ++ g.schema.toList
+  | .mysqlChange g c n _ => [g.t, c, n] ++ g.schema.toList
+  | .mysqlDropConstraint g n kind => (if kind == .pk then [g.t] else [g.t, n]) ++ g.schema.toList
+  | .mssqlDropConstraint g _ _ => [g.t] ++ g.schema.toList
+  | .mssqlDropFK g _ => [g.t] ++ g.schema.toList
+
+/-- the tokens of a statement together with the tokens of the SQL inside its string literals -/
+def toksDeep (k : Kind) (ts : List Tok) : List Tok :=
+  ts ++ ts.flatMap (fun t => match t with | .str c => lex k c | _ => [])
+
+/-- **`quoted_name(…, quote=True)` means: this exact spelling, delimited.**  (On a case-folding database the bare
+    word `users` and the delimited `"users"` are different names.)  Every name the operation passed in that form
+    must occur as a *delimited* identifier token. -/
+def forcedQuoted (k : Kind) (c : Construct) (emitted : Str) : Bool :=
+  (identNames c).all (fun n =>
+    match n.qn with
+    | some (some true) => n.s.isEmpty || (toksDeep k (lex k emitted)).contains (.qid n.s)
+    | _ => true)
+
+/-- C14 for one requested construct and the text Alembic wrote for it: the statement has exactly the requested
+    shape (identifier chains per the object forms, see `schemaPartsOf`) and names forced to be quoted are delimited -/
 def c14Ok (k : Kind) (reserved : Str → Bool) (c : Construct) (emitted : Str) : Bool :=
   match shape k c with
-  | some items => emittedOk k reserved items emitted
+  | some items => emittedOk k reserved items emitted && forcedQuoted k c emitted
   | none => false
 
 /-- Weaker oracle for statements compiled by SQLAlchemy's own constructs on behalf of an Alembic operation
